@@ -3631,6 +3631,8 @@ class __implementations__:
     @implements(numpy.interp)
     def interp(x, xp, fp, left=None, right=None):
         index = numpy.searchsorted(xp, x)
+        if left is not None: # x == xp[0] belongs to the table, not to the left of it
+            index = numpy.maximum(index, numpy.minimum(numpy.searchsorted(xp, x, side='right'), 1))
         _xp = numpy.concatenate([[xp[0]], xp])
         _fp = numpy.concatenate([[fp[0]], fp])
         _gp = numpy.concatenate([[0.], numpy.diff(fp) / numpy.diff(xp), [0.]])
